@@ -13,6 +13,7 @@ the outcome after it: the name of the returned `Variable`, or `None` when the fa
 `generate_expr(..., exclude_var=True)` was taken (only `gen_variable` passes `exclude_var=True`, so a wrapper of
 `generate_expr` that marks the innermost open `gen_variable` frame identifies the branch exactly)."""
 import functools as _functools
+import os
 import resource
 import signal
 
@@ -40,8 +41,8 @@ class _Proxy:
 
 GENVAR_LIMIT = 250
 # decision points recorded for the models of lean/Heph/Model/Gen*.lean (caps per program, the totals are counted)
-GP_LIMITS = {"sig": 300, "fcr": 60, "fref": 60, "new": 80, "subclass": 80, "mcd": 40, "mcls": 60, "gmc": 40,
-             "post": 300}
+GP_LIMITS = {"sig": 150, "fcr": 40, "fref": 40, "new": 50, "subclass": 25, "mcd": 20, "mcls": 40, "gmc": 30,
+             "post": 100, "ovr": 40, "call": 50}
 
 
 def _wrap_generator(state, G):
@@ -98,7 +99,8 @@ def _wrap_generator(state, G):
         finally:
             fs.pop()
     gen_cls.gen_conditional, gen_cls.gen_variable, gen_cls.generate_expr = gen_conditional, gen_variable, generate_expr
-    _wrap_genpoints(state, gen_cls)
+    if os.environ.get("C01_GP", "1") != "0":      # C01_GP=0: measure the cost of the decision-point recording
+        _wrap_genpoints(state, gen_cls)
 
 
 _EXPR_FRAME = {"k": "expr"}
@@ -108,6 +110,13 @@ def _gp_add(state, t):
     """index of `t` in the program's table of decision-point types (by value NOW: the generator mutates type
     parameters later, so the identity memo of the table is dropped before every record)"""
     return state["gp_tt"].add(t)
+
+
+def _merge(a, b):
+    """`a.update(b)` on a copy (the keys are type parameters, not strings)"""
+    m = dict(a or {})
+    m.update(b or {})
+    return m
 
 
 def _gp_fresh(state):
@@ -126,8 +135,13 @@ def _gp_map(state, m):
     return out
 
 
+_GP_OFF = set(filter(None, os.environ.get("C01_GP_OFF", "").split(",")))
+
+
 def _gp_room(state, kind):
     state["gp_n"][kind] = state["gp_n"].get(kind, 0) + 1
+    if kind in _GP_OFF:
+        return False
     return len(state["gp"].setdefault(kind, [])) < GP_LIMITS[kind]
 
 
@@ -163,7 +177,8 @@ def _attr_mode(get_attr_type):
 def _wrap_genpoints(state, gen_cls):
     names = ["_is_sigtype_compatible", "_gen_func_call_ref", "_get_matching_objects", "_gen_func_ref",
              "_get_matching_function_declarations", "gen_new", "_get_subclass", "_get_matching_class_decls",
-             "_is_signature_compatible", "_get_matching_class", "_gen_matching_class"]
+             "_is_signature_compatible", "_get_matching_class", "_gen_matching_class", "_gen_func_from_existing",
+             "_gen_type_params_from_existing", "gen_func_decl", "_gen_func_call"]
     orig = {n: getattr(gen_cls, n) for n in names}
     state["gp_orig"] = orig
     fs = state["fs"]
@@ -282,7 +297,7 @@ def _wrap_genpoints(state, gen_cls):
                 "out": None if out is None else [getattr(out.receiver_t, "name", None), out.attr_decl.name]})
         if out is not None:
             _post(self, "_get_matching_class:" + attr_name, out.attr_decl, etype,
-                  dict(out.receiver_inst or {}, **(out.attr_inst or {})), bool(signature), subtype, "whole")
+                  _merge(out.receiver_inst, out.attr_inst), bool(signature), subtype, "whole")
         return out
 
     def _gen_matching_class(self, etype, attr_name, not_void=False, signature=False):
@@ -336,14 +351,16 @@ def _wrap_genpoints(state, gen_cls):
         if top is not None and top.get("k") == "fref":
             _gp_fresh(state)
             top["funcs"] = [dict(_gp_attr(state, self, f.attr_decl, True),
-                                 m=_gp_map(state, dict(f.receiver_inst or {}, **(f.attr_inst or {}))),
+                                 m=_gp_map(state, _merge(f.receiver_inst, f.attr_inst)),
                                  recv=getattr(f.receiver_expr, "name", None))
                             for f in funcs]
+        if top is not None and top.get("k") == "call":
+            top["funcs"], top["was_empty"] = funcs, not funcs      # the list object: _gen_func_call appends to it
         signature = rest[0] if rest else kw.get("signature", False)
         for f in funcs:
             if f.receiver_expr is None:          # the others were reported by _get_matching_objects
                 _post(self, "_get_matching_function_declarations", f.attr_decl, etype,
-                      dict(f.receiver_inst or {}, **(f.attr_inst or {})), bool(signature), subtype, "whole")
+                      _merge(f.receiver_inst, f.attr_inst), bool(signature), subtype, "whole")
         return funcs
 
     def _gen_func_ref(self, etype, only_leaves=False):
@@ -419,6 +436,74 @@ def _wrap_genpoints(state, gen_cls):
             elif kind == "BottomConstant":
                 rec["out"]["t"] = _gp_add(state, node.t)
             state["gp"]["new"].append(rec)
+        return node
+
+    def _gen_type_params_from_existing(self, func, type_var_map):
+        top = fs[-1] if fs else None
+        out = orig["_gen_type_params_from_existing"](self, func, type_var_map)
+        if top is not None and top.get("k") == "ovr" and top["want"]:
+            type_params, renaming = out
+            top["tp"] = ([t.name for t in type_params], _gp_map(state, renaming))
+        return out
+
+    def gen_func_decl(self, *a, **k):
+        top = fs[-1] if fs else None
+        if top is not None and top.get("k") == "ovr" and top["want"] and top["decl"] is None:
+            # the signature handed over by _gen_func_from_existing (before gen_func_decl works on it)
+            top["decl"] = {"ret": _gp_add(state, k.get("etype")),
+                           "params": [_gp_add(state, p.get_type()) for p in (k.get("params") or [])],
+                           "tparams": [t.name for t in (k.get("type_params") or [])]}
+        fs.append(_EXPR_FRAME)
+        try:
+            return orig["gen_func_decl"](self, *a, **k)
+        finally:
+            fs.pop()
+
+    def _gen_func_from_existing(self, func, type_var_map, class_is_final, is_interface):
+        rec = None
+        if _gp_room(state, "ovr") and func.ret_type is not None:
+            _gp_fresh(state)
+            m = _gp_map(state, type_var_map)
+            if m is not None:
+                rec = {"params": [_gp_add(state, p.get_type()) for p in func.params],
+                       "ret": _gp_add(state, func.ret_type), "m": m, "generic": bool(func.type_parameters)}
+        frame = {"k": "ovr", "want": rec is not None, "tp": None, "decl": None}
+        fs.append(frame)
+        try:
+            out = orig["_gen_func_from_existing"](self, func, type_var_map, class_is_final, is_interface)
+        finally:
+            fs.pop()
+        if rec is not None and frame["tp"] is not None and frame["decl"] is not None and frame["tp"][1] is not None:
+            rec["tpnames"], rec["renaming"] = frame["tp"]
+            rec["out"] = frame["decl"]
+            state["gp"]["ovr"].append(rec)
+        return out
+
+    def _gen_func_call(self, etype, only_leaves=False, subtype=True):
+        want = _gp_room(state, "call")
+        frame = {"k": "call", "args": [] if want else None, "funcs": None, "was_empty": None}
+        fs.append(frame)
+        try:
+            node = orig["_gen_func_call"](self, etype, only_leaves, subtype)
+        finally:
+            fs.pop()
+        if want and frame["funcs"] is not None:
+            cands = [f for f in frame["funcs"] if f.attr_decl.name == node.func and f.receiver_expr is node.receiver]
+            if cands and all(c.attr_decl is cands[0].attr_decl and c.receiver_inst is cands[0].receiver_inst
+                             for c in cands):
+                f = cands[0]
+                _gp_fresh(state)
+                m = _gp_map(state, f.receiver_inst)       # params_map after `.update(func_type_map)`
+                args = list(frame["args"])
+                if frame["was_empty"] and node.receiver is not None:
+                    args = args[1:]                        # the receiver expression was generated first
+                if m is not None:
+                    state["gp"]["call"].append({
+                        "params": [{"t": _gp_add(state, p.get_type()), "vararg": bool(p.vararg)}
+                                   for p in f.attr_decl.params],
+                        "m": m, "args": args, "nargs": len(node.args), "created": bool(frame["was_empty"])})
+            else:
+                state["gp_n"]["call_ambiguous"] = state["gp_n"].get("call_ambiguous", 0) + 1
         return node
 
     loc = locals()
